@@ -552,6 +552,12 @@ def main(ctx):
                       'all C18 theorems check against the regenerated tables and kernels', 'do not check',
                       ', '.join(bad)[:300], found_input=len(ctx.violations) > before,
                       signature={'kind': 'proof-broken'})
+    if ctx.tier == 'thorough' and proof_ok:
+        if not ctx.coqchk('C18/Props.v'):
+            ctx.violation('proof-broken', {'coqchk': ctx.notes.get('coqchk')},
+                          'coqchk accepts C18/Props.vo and its dependencies', 'rejected',
+                          'coqchk FV.C18.Props', found_input=False, signature={'kind': 'coqchk'})
+    ctx.exhaustive = False
     return ctx.finish()
 
 
